@@ -3,6 +3,7 @@ import LexgenModel.Proofs.Simplify
 import LexgenModel.Proofs.BisimSound
 import LexgenModel.Proofs.RuleSetLang
 import LexgenModel.Proofs.CompileLang
+import LexgenModel.Proofs.EndToEnd
 /-!
 # C02 — Regex operators denote their documented languages
 
@@ -95,5 +96,26 @@ theorem C02_end_to_end (items : LexerDef) (c : Compiled) (h : compileLexer items
     ∃ e rules, (name, e) ∈ c.entries ∧ e < c.dfa.length ∧ coreRules rs b k = some rules ∧
       ((∀ r ∈ rules, regexPiecesOK r.re) → RealisesRules c.dfa e rules) :=
   compileLexer_lang items c h name rs b k hmem
+
+/-- The same for definitions WITHOUT rule sets (the common case): the top-level rules form one unnamed rule
+set entered at state 0. -/
+theorem C02_end_to_end_unnamed (items : LexerDef) (c : Compiled) (h : compileLexer items = .ok c)
+    (hno : hasRuleSets items = false) :
+    0 < c.dfa.length ∧ ∃ rules, coreRules (topRules items) [] 0 = some rules ∧
+      ((∀ r ∈ rules, regexPiecesOK r.re) → RealisesRules c.dfa 0 rules) :=
+  compileLexer_lang_unnamed items c h hno
+
+/-- What the compiled machine matches is what the definition denotes: from the entry of every rule set of a
+well-formed definition, `(n, a, viaEoi)` is a match of the machine iff the first `n` characters (followed
+by end-of-input when `viaEoi`) are denoted by the rule with action `a`, which is the first rule in source
+order denoting them whose right context holds, as a language, on the rest of the input. -/
+theorem C02_matches_are_language_matches {σ τ ε : Type} (items : LexerDef) (c : Compiled) (h : compileLexer items = .ok c)
+    (hok : DefOK items) (ctxAt : Nat → Regex) (hnum : CtxNumbering items ctxAt)
+    (name : String) (rs : List RuleOrBinding) (b : Bindings) (k : Nat) (hmem : (name, rs, b, k) ∈ allRuleSets items)
+    (actions : Nat → Action σ τ ε) (width : Nat → Nat) (input : Option (List Nat)) :
+    ∃ e rules, IsEntryOf items c name e ∧ e < c.dfa.length ∧ coreRules rs b k = some rules ∧
+      ∀ iter n a viaEoi,
+        Cand (c.config actions width input) e iter n a viaEoi ↔ LangCand rules ctxAt iter n a viaEoi :=
+  compile_cand_iff items c h hok ctxAt hnum name rs b k hmem actions width input
 
 end Lexgen
